@@ -51,7 +51,7 @@ PROPS = {
         level="exploration",
         rule="histories of real API calls drawn by a rapid state machine from the reference model's current state (virtual clock; profile C02), followed by a drain phase where stated; oracle: observation-driven reference model of Pub/Sub semantics (must / must-not / may sets per pull); payloads from a JSON corpus (whitespace, unicode, HTML-sensitive, huge numbers) and generated strings, attribute maps, unicode ordering keys; fidelity by JSON value equality; independence: every subscription has its own must / must-not sets in the model, so interference from a sibling subscription's acks, seeks, deletes or filters shows as a missing or not-rightful delivery on the victim; non-trivial = a pull response with >=2 messages on a topic with >=2 subscriptions with different filters; distinct by hash of the operation list",
         assumptions=['virtual clock: time.Now/Since/Until in actions/ and services/ are redirected by the build overlay', 'SQLite backend only', "every time comparison carries a 10 ms margin; anything inside a margin or inside the <1 s jitter window is 'may'"],
-        quick=dict(checks=800, timeout=1200),
+        quick=dict(checks=1600, timeout=1200),
         thorough=dict(checks=600, shards=16, timeout=3000),
     ),
     "C03": dict(
